@@ -74,6 +74,11 @@ def gen_world(rng):
         stocks.append(s)
     if len(stocks) == 2 and stocks[1]["share"] is None and rng.chance(0.6):
         stocks[1]["grid2"] = True  # the second stock lives on another time grid with the same number of items
+        if stocks[0]["cls"] != "simple" and stocks[1]["cls"] != "simple" and rng.chance(0.5):
+            # ... and is otherwise a twin of the first: same lifetime class, same scalar parameters from the start (what differs is the grid)
+            stocks[1]["lt"] = stocks[0]["lt"]
+            stocks[0]["lt_as"] = stocks[1]["lt_as"] = "instance_prms"
+            stocks[1]["same_prms"] = True
     return {"time": t, "extra": extra, "stocks": stocks, "system": system, "grid": grid, "cleanroom": rng.chance(0.3)}
 
 
@@ -387,7 +392,8 @@ class StockSim(Engine):
                 else:
                     lkw = {"dims": dims_k, "time_letter": "t", "inflow_at": s["inflow_at"], "n_pts_per_interval": s["n_pts"]}
                     if s["lt_as"] == "instance_prms":
-                        specs = [{"form": "scalar", "dims": [], "perm": 0, "vseed": 11 + k}, {"form": "scalar", "dims": [], "perm": 0, "vseed": 12 + k}]
+                        k_ = 0 if s.get("same_prms") else k
+                        specs = [{"form": "scalar", "dims": [], "perm": 0, "vseed": 11 + k_}, {"form": "scalar", "dims": [], "perm": 0, "vseed": 12 + k_}]
                         lkw.update(self._prm_kwargs(st, s["lt"], specs))
                     kw["lifetime_model"] = LT[s["lt"]](**lkw)
                 if s["cls"] == "stockdriven":
